@@ -137,7 +137,10 @@ def _matrix_setup(P, rng, proc, nested=True):
     """adds (valid) helper declarations: a nested array type, a procedure taking it by reference, and a local of that type in `proc`"""
     k = rng.randint(100, 999)
     tname, pname, vname = "Mat%d" % k, "takesMat%d" % k, "mat%d" % k
-    te = mk_array_type(3, mk_array_type(4, mk_named_type("int"))) if nested else mk_array_type(3, mk_named_type("int"))
+    # (levels of equal size are the hard case: the types of a matrix and of its row then differ in nothing but their base type)
+    a, b = rng.choice([(3, 4), (3, 3), (2, 2), (1, 1), (4, 2), (7, 7)])
+    inner = mk_array_type(b, mk_array_type(b, mk_named_type("int"))) if rng.random() < .3 else mk_array_type(b, mk_named_type("int"))
+    te = mk_array_type(a, inner) if nested else mk_array_type(3, mk_named_type("int"))
     td = mk_typedecl(tname, te)
     callee = mk_proc(pname, [mk_param("m", mk_named_type(tname), True)])
     # the type must be declared before its uses: put both in front of everything
